@@ -461,7 +461,9 @@ def run_batch(cfg, cases, shards=None, timeout=600, wrapper=None, env=None, keep
     # exceed the watchdog without hanging. Only what times out again alone stays a timeout.
     if not _retry and retry_timeouts:
         slow = [c for c in cases if results.get(c["id"], {}).get("abort", {}).get("why") == "timeout"]
-        for c in slow[:6]:
+        # (only when the batch had one or two of them: that is what load does to a healthy tree; a batch in which many
+        # cases hang is a broken tree, and a second opinion on each would cost minutes without changing the verdict)
+        for c in (slow if len(slow) <= 2 else []):
             r2 = run_batch(cfg, [c], shards=1, timeout=max(timeout, 600), wrapper=wrapper, env=env, cmd=cmd,
                            case_timeout=4 * (case_timeout or CASE_TIMEOUT), _retry=True)[0]
             if "abort" in r2 and r2["abort"].get("why") == "timeout":
